@@ -180,10 +180,12 @@ variable {d : Defects} (hI : d.ingestIgnoresTombstones = false) (hR : d.syncDele
 include hR in
 theorem applyNTombs_noZombie (rights : List Bool) {dst : Replica} (h : NoZombie dst) (ts : List NTomb) :
     NoZombie (applyNTombs d rights dst ts) ∧ ∀ i ∈ dst.deadIds, i ∈ (applyNTombs d rights dst ts).deadIds := by
-  simp only [applyNTombs]
+  unfold applyNTombs
   refine foldl_preserves (fun r : Replica => NoZombie r ∧ ∀ i ∈ dst.deadIds, i ∈ r.deadIds) _ _ _
     ⟨h, fun i hi => hi⟩ ?_
   intro r t ⟨hz, hm⟩
+  unfold applyNTomb
+  simp only
   constructor
   · rw [noZombie_iff] at hz ⊢
     intro n hn
